@@ -145,6 +145,14 @@ func c20(p *model.Prog, r *report.Result) {
 				}
 				nAcc++
 				held := st.has(lock)
+				readOnlyHeld := false
+				if !held && st.has(sharedClass(lock)) {
+					if isWriteAccess(in) {
+						readOnlyHeld = true
+					} else {
+						held = true
+					}
+				}
 				s := stats[fld.Name()]
 				if held {
 					s[0]++
@@ -155,6 +163,8 @@ func c20(p *model.Prog, r *report.Result) {
 				key := fkey(fn, "guarded", gs.typ+"."+fld.Name())
 				if held {
 					r.Trivial("C20.R1", key, p.InstrPos(in), "held "+st.String())
+				} else if readOnlyHeld {
+					r.Bad("C20.R1", key, p.InstrPos(in), fmt.Sprintf("%s.%s is written while %s is held only for reading (RLock): concurrent readers mutate shared state", gs.typ, fld.Name(), lockClassName(lock)))
 				} else {
 					r.Bad("C20.R1", key, p.InstrPos(in), fmt.Sprintf("%s.%s accessed with lock set %s; %s is not held on every call path", gs.typ, fld.Name(), st.String(), lockClassName(lock)))
 				}
@@ -194,7 +204,9 @@ func c20(p *model.Prog, r *report.Result) {
 			if class == nil || op <= 0 {
 				return
 			}
-			for h := range may.at[in].m {
+			class = baseClass(class)
+			for h0 := range may.at[in].m {
+				h := baseClass(h0)
 				e := edge{h, class}
 				if _, seen := edges[e]; !seen {
 					edges[e] = in
@@ -217,7 +229,7 @@ func c20(p *model.Prog, r *report.Result) {
 		key := "order|" + lockClassName(e.from) + "->" + lockClassName(e.to)
 		if e.from == e.to {
 			for _, in := range selfSites {
-				if c2, _ := lockOp(in.(ssa.CallInstruction)); c2 != e.from {
+				if c2, _ := lockOp(in.(ssa.CallInstruction)); baseClass(c2) != e.from {
 					continue
 				}
 				// blame the call sites through which the lock-holding context enters the locking function
@@ -407,4 +419,50 @@ func blockingUnderLock(p *model.Prog, may *lockAnalysis, r *report.Result, rule 
 		})
 	}
 	return nBlk
+}
+
+// isWriteAccess: the field access instruction is (part of) a mutation of the guarded object:
+// a store through the field address, a map update / delete on the loaded map, a store into an
+// element of the loaded slice.
+func isWriteAccess(in ssa.Instruction) bool {
+	v, ok := in.(ssa.Value)
+	if !ok || v.Referrers() == nil {
+		return false
+	}
+	var mutated func(x ssa.Value, d int) bool
+	mutated = func(x ssa.Value, d int) bool {
+		if d > 4 || x.Referrers() == nil {
+			return false
+		}
+		for _, ref := range *x.Referrers() {
+			switch y := ref.(type) {
+			case *ssa.Store:
+				if y.Addr == x {
+					return true
+				}
+			case *ssa.MapUpdate:
+				if y.Map == x {
+					return true
+				}
+			case *ssa.UnOp:
+				if y.Op == token.MUL && mutated(y, d+1) {
+					return true
+				}
+			case *ssa.IndexAddr:
+				if y.X == x && mutated(y, d+1) {
+					return true
+				}
+			case *ssa.FieldAddr:
+				if y.X == x && mutated(y, d+1) {
+					return true
+				}
+			case *ssa.Call:
+				if b, isB := y.Call.Value.(*ssa.Builtin); isB && b.Name() == "delete" && len(y.Call.Args) > 0 && y.Call.Args[0] == x {
+					return true
+				}
+			}
+		}
+		return false
+	}
+	return mutated(v, 0)
 }
